@@ -30,6 +30,14 @@ def poly(name, z, *rects):
     return P("poly", (_i(z),), [[_i(v) for v in r] for r in rects], name)
 
 
+def mpoly(name, z, *rects):
+    """A PolygonalRegion whose shapely geometry is a MultiPolygon of pairwise disjoint (not even
+    touching) rectangles, in the given order of components."""
+    d = poly(name, z, *rects)
+    d["multi"] = True
+    return d
+
+
 def fp(name, *rects):
     return P("fp", (), [[_i(v) for v in r] for r in rects], name)
 
@@ -111,10 +119,26 @@ def catalogue():
         pset("Q1", (0.25, 0.25, 0), (-1.75, 0.25, 0), (3.25, -2.75, 0), (0.25, 2.25, 2), (-2.75, -2.75, 2), (1.25, 1.25, 2)),
         pset("Q2", (0.25, 0.25, 0), (1.25, 0.25, 0), (-1.75, -1.75, 0), (2.25, -2.75, 0)),
         pset("Q3", (1.25, 1.25, 2), (-2.75, 0.25, 2), (2.25, -1.75, 2), (0.25, 3.25, 2), (1.25, 1.25, 0.25)),
+        # polygons with several connected components of different areas (2,1 at z=0; 1,3,2 at z=2)
+        mpoly("M1", 0, (-4, -2, -1, 0), (2, 3, -1, 0)),
+        mpoly("M3", 2, (-4, -3, -4, -3), (-2, 1, -4, -3), (2, 4, -4, -3)),
         fp("F1", (-2, 2, -2, 2)),
         fp("F2", (0, 3, 0, 1), (0, 1, 1, 3)),
         ALL,
         EMPTY,
+    ]
+
+
+def more_multipolygons():
+    """Further multi-component polygons and the strips that cut a polygon into disjoint pieces of
+    different areas (used by C03's triangulation checks)."""
+    return [
+        mpoly("M2", 0, (-4, -3, 1, 2), (0, 2, 1, 2)),                 # areas 1, 2
+        mpoly("M4", 2, (1, 3, 2, 3), (-3, -2, 2, 3)),                 # areas 2, 1
+        poly("K1", 0, (0, 1, -3, 3)),      # R1 - K1: pieces of area 2 and 4
+        poly("K2", 2, (-1, 0, -4, 0)),     # R3 - K2: pieces of area 4 and 6
+        poly("K3", 2, (-1, 0, -2, 4)),     # P2 & K3: pieces of area 1 and 2 (the annulus' hole splits the strip)
+        poly("K4", 0, (2, 4, 2.5, 3.5)),   # P1 | K4: two components of area 16 and 2
     ]
 
 
@@ -180,6 +204,9 @@ def build(desc):
             )
             meshes.append(m)
         return R.MeshVolumeRegion(trimesh.boolean.union(meshes), centerMesh=False)
+    if k == "poly" and desc.get("multi"):
+        g = shapely.geometry.MultiPolygon([shapely.geometry.box(f(r[0]), f(r[2]), f(r[1]), f(r[3])) for r in s])
+        return R.PolygonalRegion(polygon=g, z=f(n[0]))
     if k in ("poly", "fp"):
         g = shapely.ops.unary_union([shapely.geometry.box(f(r[0]), f(r[2]), f(r[1]), f(r[3])) for r in s])
         if k == "fp":
